@@ -17,6 +17,12 @@ func replay(p *Pipeline, rf *replayFile, path string) int {
 		reqs := p.buildPluginAndRequests()
 		p.setupVariant(rf.Variant, reqs, true)
 		bin = p.buildEngA(rf.Variant, rf.Build)
+	case "C11", "C07":
+		reqs := p.buildPluginAndRequests()
+		p.setupVariant(rf.Variant, reqs, true)
+		var env []string
+		bin, env = p.buildEngB(rf.Variant)
+		rf.Env = env
 	case "C13":
 		p.buildPluginAndRequests()
 		var params string
